@@ -16,19 +16,19 @@ add("C01", "vp_sample",
 
 add("C02", "vp_sample",
     "bounded-exhaustive enumeration + proptest against a soft-float / exact-truncation reference",
-    "int->float: every value of the <=24-bit sources (thorough: <=32-bit), structured values of the wider ones (incl., for every magnitude, the neighbourhood of the mantissa's rounding half-way point +-{0,1,2, a few low bits}: the values on which one rounding and two successive roundings disagree), bit-compared with a soft-float round-to-nearest-even reference, plus the int->float->int round trip wherever the width fits the mantissa. float->int: every f32 bit pattern of [-1,1) in the thorough tier (one seed-chosen pattern per 64 in quick) x 12 targets, f64 by proptest over sign/exponent/mantissa plus the truncation decision points and boundary patterns of both float types (the largest values below 1.0, every power of two down to 2^-70 with its neighbours, zeros, subnormals), compared with trunc(x*2^(bits-1)) on the decomposed float. custom-width samples built through From<backing integer> from out-of-range values convert like the in-range sample; f32->f64 over all 2^32 patterns (thorough), f64->f32 on random values, exact midpoints +-1ulp, the overflow threshold and the subnormal range.",
+    "int->float: every value of the <=24-bit sources (thorough: <=32-bit), structured values of the wider ones (incl., for every magnitude, the neighbourhood of the mantissa's rounding half-way point +-{0,1,2, a few low bits}: the values on which one rounding and two successive roundings disagree), bit-compared with a soft-float round-to-nearest-even reference, plus the int->float->int round trip wherever the width fits the mantissa. float->int: every f32 bit pattern of [-1,1) in the thorough tier (one seed-chosen pattern per 64 in quick) x 12 targets, f64 by proptest over sign/exponent/mantissa plus the truncation decision points and boundary patterns of both float types (the largest values below 1.0, every power of two down to 2^-70 with its neighbours, zeros, subnormals), compared with trunc(x*2^(bits-1)) on the decomposed float. custom-width samples built through From<backing integer> from out-of-range values convert like the in-range sample; each format's EQUILIBRIUM converts to 0.0 and 0.0 / -0.0 convert to it; f32->f64 over all 2^32 patterns (thorough), f64->f32 on random values, exact midpoints +-1ulp, the overflow threshold and the subnormal range.",
     "Trusted: the soft-float reference (cross-checked against hardware casts at start-up), IEEE semantics of the host, rustc/LLVM. f64 sources are sampled, not exhausted.",
     "DESIGN.md §4 C02")
 
 add("C15", "vp_sample (two build configurations)",
     "bounded-exhaustive enumeration + proptest against exact i128 arithmetic, in two build configurations",
-    "All 2048^2 operand pairs of both 11-bit types for + - *, every i16 through new/From<i16>, Neg on every I11 value, boundary grids and overflow-biased proptest operands for the 20/24/48-bit types, every widening From impl (exhaustive for <=16-bit sources), ordering on boundary grids; run once with debug assertions + overflow checks (overflow must panic) and once without (result must be wrapped modulo 2^bits).",
+    "Conversions from floats (incl. the largest values below 1.0) and from 64-bit integers into the four custom conversion targets stay in range. All 2048^2 operand pairs of both 11-bit types for + - *, every i16 through new/From<i16>, Neg on every I11 value, boundary grids and overflow-biased proptest operands for the 20/24/48-bit types, every widening From impl (exhaustive for <=16-bit sources), ordering on boundary grids; run once with debug assertions + overflow checks (overflow must panic) and once without (result must be wrapped modulo 2^bits).",
     "Trusted: i128 reference arithmetic, catch_unwind to observe panics. Wider types are sampled with structure.",
     "DESIGN.md §4 C15")
 
 add("C03", "vp_sample",
     "proptest + bounded-exhaustive enumeration against a reference built from the exact conversion references and native companion arithmetic",
-    "Sample level: add_amp / mul_amp / to_signed_sample / to_float_sample for all 14 formats on boundary-biased and random operands (valid by construction), all values of the 8/16-bit formats against the identity operands (offset 0, offsets landing on MIN/MAX, gains 0, 1, 0.5). Frame level: every Frame method for every width 1..=32 (u8, i16, U48, f32), widths 1/2/5/32 and the bare-sample frame for all 14 formats; closures record their call order and arguments, channel contents are pairwise distinct, from_samples is driven with every short and long iterator length and with exact / (0, None) / (k < N, None) size hints, the channels() iterator is also used positionally (nth, skip, step_by) and its len() is read before every next() and after exhaustion, clones of it taken mid-way continue correctly, channels_mut() is also walked in reverse and from both ends; from_samples is also driven with a poll-counting non-fused iterator (exactly N items on success, no poll after the first None).",
+    "Sample level: add_amp / mul_amp / to_signed_sample / to_float_sample for all 14 formats on boundary-biased and random operands (valid by construction), the last 300 values at both ends of every integer format scaled by exactly 1.0 and offset by 0, all values of the 8/16-bit formats against the identity operands (offset 0, offsets landing on MIN/MAX, gains 0, 1, 0.5). Frame level: every Frame method for every width 1..=32 (u8, i16, U48, f32), widths 1/2/5/32 and the bare-sample frame for all 14 formats; closures record their call order and arguments, channel contents are pairwise distinct (and, in one case out of four, equal between neighbours), from_samples is driven with every short and long iterator length and with exact / (0, None) / (k < N, None) size hints, the channels() iterator is also used positionally (nth, skip, step_by) and its len() is read before every next() and after exhaustion, clones of it taken mid-way continue correctly, channels_mut() is also walked in reverse and from both ends; from_samples is also driven with a poll-counting non-fused iterator (exactly N items on success, no poll after the first None).",
     "Trusted: the conversion references of C01/C02, native + and * of the host in the companion type. The 14 x 32 product of array instantiations is covered as 4 x 32 + 14 x 4 (array frames are one generic impl).",
     "DESIGN.md §4 C03")
 
@@ -40,7 +40,7 @@ add("C06", "vp_buf (+ libFuzzer target rb in the thorough tier)",
 
 add("C10", "vp_buf (+ libFuzzer target slice in the thorough tier)",
     "bounded-exhaustive enumeration + proptest with pointer/length/content oracles and a counting allocator",
-    "Every N in 1..=32 x six formats (1/2/4/8-byte, incl. newtypes) x every length 0..=2N+1 x shared/mutable/boxed through every entry point (free functions and trait methods), plus random lengths up to 4096, the viewed range sitting at a non-zero offset inside a larger buffer (so that an empty range still has a real address and nothing outside the range may change): Some iff N divides L, L/N frames, same memory, frame i channel c == sample i*N+c, a write through the mutable view changes exactly that sample, inverse view restores pointer and length; boxed conversions: pointer preserved, zero allocator events on success, every byte released after success-and-drop and after a failed conversion. In-place ops on eight frame types (incl. [i32;2] and [i64;1] with values wider than their float companion's mantissa), closures recording their arguments (call k is about element k), zip_map_in_place also with a second slice of a different frame type: every length pair up to 6x6 and random lengths: equal to the element-wise frame op, and a length mismatch panics with the destination bit-identical.",
+    "Every N in 1..=32 x six formats (1/2/4/8-byte, incl. newtypes) x every length 0..=2N+1 x shared/mutable/boxed through every entry point (free functions and trait methods), plus random lengths up to 4096, the viewed range sitting at a non-zero offset inside a larger buffer (so that an empty range still has a real address and nothing outside the range may change): Some iff N divides L, L/N frames, same memory, frame i channel c == sample i*N+c, a write through the mutable view changes exactly that sample, inverse view restores pointer and length; boxed conversions: pointer preserved, zero allocator events on success, every byte released after success-and-drop and after a failed conversion. In-place ops on eight frame types (incl. [i32;2] and [i64;1] with values wider than their float companion's mantissa), closures recording their arguments (call k is about element k), zip_map_in_place also with a second slice of a different frame type, runs of equal neighbouring frames, sums landing exactly on MAX / MIN: every length pair up to 6x6 and random lengths: equal to the element-wise frame op, and a length mismatch panics with the destination bit-identical.",
     "Trusted: the counting allocator (self-tested), pointer comparison, std's unsafe-precondition checks in the debug-assertion build.",
     "DESIGN.md §4 C10")
 
@@ -64,13 +64,13 @@ add("C14", "vp_buf",
 
 add("C04", "vp_sig",
     "proptest over typed adaptor trees (program generation) against a compositional pointwise model with instrumented sources",
-    "Random adaptor trees to depth 4 (thorough 7) over 8 frame types, built from the real dasp adaptors on type-erased children (map, scale/offset and their per-channel variants, clip_amp, inspect, delay, by_ref via a throw-away adaptor on a borrow, zip_map, add_amp, mul_amp), plus a catalogue of every single adaptor and every pair; frame k must equal the composition of the frame operations on frame k of the sources, clip_amp an independent clamp, delay(k) k equilibrium frames; is_exhausted() agrees with the stream model before every pull; after every output frame every probe's pull counter must have advanced by exactly one (zero under a delay still emitting silence) and every inspect closure must have been called exactly once per frame that reached it. A separate sub-check drives clip_amp with MIN / MAX / boundary values of all 14 formats x boundary thresholds; another drives the gain / offset adaptors (scale_amp, scale_amp_per_channel, mul_amp, offset_amp, offset_amp_per_channel, add_amp) with full-range values of all 14 formats and compares them with the Frame operation on the same frame.",
+    "Random adaptor trees to depth 4 (thorough 7) over 8 frame types, built from the real dasp adaptors on type-erased children (map, scale/offset and their per-channel variants, clip_amp, inspect, delay, by_ref via a throw-away adaptor on a borrow, zip_map, add_amp, mul_amp), plus a catalogue of every single adaptor and every pair; frame k must equal the composition of the frame operations on frame k of the sources, clip_amp an independent clamp, delay(k) k equilibrium frames; is_exhausted() agrees with the stream model before every pull; after every output frame every probe's pull counter must have advanced by exactly one (zero under a delay still emitting silence) and every inspect closure must have been called exactly once per frame that reached it. A separate sub-check drives clip_amp with MIN / MAX / boundary values of all 14 formats x boundary thresholds; another drives the gain / offset adaptors (scale_amp, scale_amp_per_channel, mul_amp, offset_amp, offset_amp_per_channel, add_amp) with full-range values of all 14 formats and compares them with the Frame operation on the same frame and with four identities stated on raw amplitudes (offset 0, gain 1, gain 0, gain 0.5 on even amplitudes).",
     "Trusted: the Frame operations (C03's subject) used by the model, the probe sources. Operands are small by construction so results stay in range.",
     "DESIGN.md §4 C04")
 
 add("C05", "vp_sig",
     "bounded-exhaustive catalogue + proptest trees against a stream-length model",
-    "Every single adaptor and every pair x source lengths 0..=12 (thorough 16) x 1..4 channels x iterator-backed and interleaved-sample sources with every incomplete-tail length x delays 0..=3 x every consumption mode (is_exhausted before/after each next with pulls past the end, until_exhausted, take(n), interleaved iterator, next_sample, lift), two-source adaptors with every (L1, L2) <= 6, plus random trees: exhaustion exactly at min source length (+ leading delays), equilibrium afterwards, iterators yield exactly the model length and then None on five further calls, interleaved output yields frames x channels samples in channel order. Sources include non-fused iterators (which yield items again after None: the signal must end exactly once); the interleaved output is also cloned after every possible number of samples; take / until_exhausted / the interleaved iterator obey the iterator laws (nth, skip, step_by, size_hint, count, last agree with next). The combining adaptors that are not tree nodes: mul_hz over every (source length <= 8, multiplier-signal length <= 12, ratio k/4 <= 3, floor|linear) is exhausted iff the multiplier signal is or a plain converter at the same ratio is; bus outputs under random pull schedules are exhausted iff they have received every source frame; a plain converter at every ratio k/4 <= 4 over sources of 0..=12 frames must end after ceil((R+1)/r) frames or one more; rate.hz(finite frequency signal) used as a signal is exhausted exactly when that signal is; the silence after the end / in a delay lead-in / from take() padding is the amplitude-0 value of each of the 14 formats (stated without the library's constants); signals are also consumed through a &mut borrow; bus outputs are also attached while others lag.",
+    "Every single adaptor and every pair x source lengths 0..=12 (thorough 16) x 1..4 channels x iterator-backed and interleaved-sample sources with every incomplete-tail length x delays 0..=3 x every consumption mode (is_exhausted before/after each next with pulls past the end, until_exhausted, take(n), interleaved iterator, next_sample, lift), two-source adaptors with every (L1, L2) <= 6, plus random trees: exhaustion exactly at min source length (+ leading delays), equilibrium afterwards, iterators yield exactly the model length and then None on five further calls, interleaved output yields frames x channels samples in channel order. Sources include non-fused iterators (which yield items again after None: the signal must end exactly once); the interleaved output is also cloned after every possible number of samples; take / until_exhausted / the interleaved iterator obey the iterator laws (nth, skip, step_by, size_hint, count, last agree with next). The combining adaptors that are not tree nodes: mul_hz over every (source length <= 8, multiplier-signal length <= 12, ratio k/4 <= 3, floor|linear) is exhausted iff the multiplier signal is or a plain converter at the same ratio is; bus outputs under random pull schedules are exhausted iff they have received every source frame; a plain converter at every ratio k/4 <= 4 over sources of 0..=12 frames must end after ceil((R+1)/r) frames or one more; rate.hz(finite frequency signal) used as a signal is exhausted exactly when that signal is; the silence after the end / in a delay lead-in / from take() padding is the amplitude-0 value of each of the 14 formats (stated without the library's constants); signals are also consumed through a &mut borrow; bus outputs are also attached while others lag; until_exhausted() over a buffered signal or an upsampling converter stays finished when polled again after its first None.",
     "Trusted: the stream-length model (pointwise keeps, two-source min, delay adds).",
     "DESIGN.md §4 C05")
 
@@ -82,25 +82,25 @@ add("C08", "vp_sig",
 
 add("C20", "vp_sig",
     "bounded-exhaustive enumeration + proptest against closed-form references",
-    "Hann/Rectangle window functions on every phase k/2^m (m <= 10) and random phases in [0,1] for f64 and f32 phase types (value vs sin^2(pi p), range, symmetry, end points); Window::new(n) for n in 2..=64 and {100, 1000, 4096}; Windower over every (L, bin, hop) in 0..=40 x 2..=12 x 1..=14 x two windows x four frame formats (f64, [f32;2], i16, [u8;2]) plus random larger triples: chunk count == floor((L-b)/h)+1 (0 when L < b), chunk k's first b frames == frames[k*h+i] scaled by W(i/(b-1)), size_hint() before every next() brackets the number of chunks still to come, None is sticky; nth / skip / step_by on the Windower and clones of it taken mid-way see the same schedule; clones of a Window and of a Windowed chunk taken after j frames continue where the original stands; hops up to usize::MAX; Window and Windowed obey the iterator laws.",
+    "Hann/Rectangle window functions on every phase k/2^m (m <= 10) and random phases in [0,1] for f64 and f32 phase types (value vs sin^2(pi p), range, symmetry, end points); Window::new(n) for n in 2..=64 and {100, 1000, 4096, 2^32+3, 2^33+1, 2^40}; Windower over every (L, bin, hop) in 0..=40 x 2..=12 x 1..=14 x two windows x four frame formats (f64, [f32;2], i16, [u8;2]) plus random larger triples: chunk count == floor((L-b)/h)+1 (0 when L < b), chunk k's first b frames == frames[k*h+i] scaled by W(i/(b-1)), size_hint() before every next() brackets the number of chunks still to come, None is sticky; nth / skip / step_by on the Windower and clones of it taken mid-way see the same schedule; clones of a Window and of a Windowed chunk taken after j frames continue where the original stands; a Windower whose public fields were assigned behaves like one constructed with those values; hops up to usize::MAX; Window and Windowed obey the iterator laws.",
     "Trusted: libm sin for the reference shape; stated tolerances (1e-12 / 2e-7 / 1e-9*n); integer frames must be unchanged under the Rectangle window and otherwise lie between the truncated products of the signed amplitude with w -+ 3e-7.",
     "DESIGN.md §4 C20")
 
 add("C17", "vp_sig",
     "proptest + long deterministic runs against an exact accumulated-phase model; metamorphic/purity relations for noise",
-    "Oscillators driven at random and boundary rates with constant (ConstHz) and per-frame (Hz over an instrumented frequency signal) frequencies from 0 to 1e30 x rate (beyond 2^63), runs to 2000 frames plus 1e6-frame (thorough 2e7) tiny-step, huge-step, varying and exact-regime runs: phase in [0,1) and starting at 0, phase == frac(sum of steps) exactly in the exact regime (power-of-two rate, dyadic steps) and within the sum of one ulp of every addition so far (2^-52 x (phase + step) per frame) otherwise, steps down to 1e-19 (below 2^-52), subnormal steps (exact regime of their own) and rates below 1 included, sine/saw/square against the observed phase, simplex noise in range and equal to its value at the same phase, one frequency frame consumed per output frame (also after the frequency signal has reported exhaustion). Noise: boundary seeds (0, 1, 2^32, 2^63, u64::MAX-k for k<=300) and random seeds: in range, no panic, reproducible on restart and clone, frame n of noise(s) == frame 0 of noise(s+n).",
+    "Oscillators driven at random and boundary rates with constant (ConstHz) and per-frame (Hz over an instrumented frequency signal) frequencies from 0 to 1e30 x rate (beyond 2^63), runs to 2000 frames plus 1e6-frame (thorough 2e7) tiny-step, huge-step, varying and exact-regime runs: phase in [0,1) and starting at 0, phase == frac(sum of steps) exactly in the exact regime (dyadic steps at power-of-two rates or at integer rates such as 49, 441, 44100, 48000), a Phase advanced 1 or 3 frames and then turned into sine / saw / square through the method form carries on from its phase, and within the sum of one ulp of every addition so far (2^-52 x (phase + step) per frame) otherwise, steps down to 1e-19 (below 2^-52), subnormal steps (exact regime of their own) and rates below 1 included, sine/saw/square against the observed phase, simplex noise in range and equal to its value at the same phase, one frequency frame consumed per output frame (also after the frequency signal has reported exhaustion). Noise: boundary seeds (0, 1, 2^32, 2^63, u64::MAX-k for k<=300) and random seeds: in range, no panic, reproducible on restart and clone, frame n of noise(s) == frame 0 of noise(s+n).",
     "Trusted: libm sin/cos for the references; the phase observer is a second instance of the same Phase code (the model checks it against exact accumulation).",
     "DESIGN.md §4 C17")
 
 add("C11", "vp_sig (std) + vp_nostd (dasp_sample/frame/ring_buffer/rms with default-features = false)",
     "proptest operation histories + long runs against an exact windowed mean-square reference, in two feature configurations",
-    "Histories of push / push-squared / reset (up to 50 x N, max 3000 operations; long runs of 1e5, thorough 1e6 pushes with loud/quiet alternation; value profiles incl. loud / far quieter but non-zero / reset / ordinary, quiet throughout, first channel silent; constructed loud-quiet-reset-quiet histories for every format and window length; the detector may be replaced by its clone at any point) over 7 formats x 1/2/5 channels x window lengths 1..=64, 100, 1000. Exact regime (grid values k/64, libm sqrt): next_squared == mean and next == sqrt(mean) bit for bit; general regime: |next_squared - mean| within the derived bound u X^2 (2.2 T (N+1)/N + 5), next within the bound propagated through the square root (4u relative for libm; 7% + 2^-62 / 2^-500 for the no_std approximation); never negative or NaN; after reset() bit-identical to a fresh detector on the same subsequent input; current() == last next(); the signal adaptor bit-identical to the direct detector, also when pulled N+3 frames past the end of its source. The driver runs a std binary and a binary whose dasp crates are built without the std feature (a start-up self-check confirms which square root is linked) and merges their evidence.",
+    "Histories of push / push-squared / reset (up to 50 x N, max 3000 operations; long runs of 1e5, thorough 1e6 pushes with loud/quiet alternation; value profiles incl. loud / far quieter but non-zero / reset / ordinary, quiet throughout, first channel silent; constructed loud-quiet-reset-quiet histories for every format and window length; the detector may be replaced by its clone at any point) over 9 formats (incl. u64, i64) x 1/2/5 channels x window lengths 1..=64, 100, 1000 (constructed cases up to 144000). Exact regime (grid values k/64, libm sqrt): next_squared == mean and next == sqrt(mean) bit for bit; general regime: |next_squared - mean| within the derived bound u X^2 (2.2 T (N+1)/N + 5), next within the bound propagated through the square root (4u relative for libm; 7% + 2^-62 / 2^-500 for the no_std approximation); never negative or NaN; after reset() bit-identical to a fresh detector on the same subsequent input; current() == last next() (and the square root of the last next_squared()); the signal adaptor bit-identical to the direct detector, also when pulled N+3 frames past the end of its source. The driver runs a std binary and a binary whose dasp crates are built without the std feature (a start-up self-check confirms which square root is linked) and merges their evidence.",
     "Trusted: f64 reference arithmetic on exact amplitudes (its own error is added to the bound). The general-regime bound grows with the number of pushes since the last reset; the exact regime compensates.",
     "DESIGN.md §4 C11")
 
 add("C19", "vp_sig",
     "bounded-exhaustive enumeration (rectifiers) + proptest histories (envelope) against exact and interval oracles; one open known finding excluded by construction",
-    "Rectifiers: every value of the 8/16-bit formats (minimum excluded, as the statement's premise), boundary sets and random values of the other ten formats, 1..=4 channels, functions and Rectifier impls: |signed amplitude|, max(s, eq), min(s, eq) exactly. Envelope: histories of up to 400 frames over 7 frame types x peak (three rectifiers) and rms (window 1..=32) detection x attack/release from {0, -0.0, 1e-30, 1e-3, 0.5, 1, 10, 1e4, 3.4e7, 1e9, +infinity, random} with set_attack_frames/set_release_frames at random steps, directly and through the detect_envelope adaptor: every output channel inside d + [g_lo, g_hi](l - d) with g = exp(-1/frames), between the previous envelope and the detected value, equal to the detected value for a zero time constant, prefix before the first parameter change identical to the unchanged run, adaptor bit-identical to the detector, also when pulled past the end of its source; every named constructor (peak, peak_*_half_wave, peak_from_rectifier, rms) bit-identical to Detector::new. Known finding F8 (i32 frames, gain rounding to 1.0, previous envelope at full scale -> overflow) is excluded by construction, counted, and reproduced by one deterministic probe that prints the KNOWN-FINDING line; any other failure is a violation.",
+    "Rectifiers: every value of the 8/16-bit formats (minimum excluded, as the statement's premise), boundary sets and random values of the other ten formats, 1..=4 channels, functions and Rectifier impls: |signed amplitude|, max(s, eq), min(s, eq) exactly. Envelope: histories of up to 400 frames over 7 frame types x peak (three rectifiers) and rms (window 1..=32) detection x attack/release from {0, -0.0, 1e-30, 1e-3, 0.5, 1, 10, 1e4, 3.4e7, 1e9, +infinity, random} with set_attack_frames/set_release_frames at random steps, directly and through the detect_envelope adaptor: every output channel inside d + [g_lo, g_hi](l - d) with g = exp(-1/frames) (allowance: 2 ulp at the signal level for float formats, 1 LSB + 4 ulp of |l - d| for integer formats), between the previous envelope and the detected value, equal to the detected value for a zero time constant, prefix before the first parameter change identical to the unchanged run, adaptor bit-identical to the detector, also when pulled past the end of its source; every named constructor (peak, peak_*_half_wave, peak_from_rectifier, rms) bit-identical to Detector::new. Known finding F8 (i32 frames, gain rounding to 1.0, previous envelope at full scale -> overflow) is excluded by construction, counted, and reproduced by one deterministic probe that prints the KNOWN-FINDING line; any other failure is a violation.",
     "Trusted: f64 exp for the reference gain (1e-5 relative allowance for the f32 powf), a second instance of the detector stage to observe d.",
     "DESIGN.md §4 C19, §5 F8")
 
@@ -112,13 +112,13 @@ add("C18", "vp_sig",
 
 add("C09", "vp_graph (+ libFuzzer target graph in the thorough tier)",
     "bounded-exhaustive enumeration of small multigraphs + proptest graphs against a reachability / topological-order / functional-evaluation model with instrumented nodes",
-    "Every directed multigraph on up to 3 nodes (multiplicity 0..2 on each ordered pair incl. self-loops) x every output node, every digraph with self-loops on 4 nodes x every output node (thorough: every loop-free digraph on 5 nodes), single removals with slot reuse on stable graphs, and random graphs of up to 14 nodes with parallel edges, self-loops, removals, late nodes and edges, consecutive process calls with different output nodes on one reused processor of random capacity, Graph and StableGraph: processed set == reverse reachability, each node once; each invocation's input pointers == one per incoming edge from a different node, never the node's own buffers, and presenting all of the neighbour's buffers whatever the consumer's own channel count; mixers with 17..=80 incoming edges on a processor created with capacity 0..=5; optionally a node that panics (caught) during an earlier call on the same processor; for acyclic upstream subgraphs inputs first and buffers == functional evaluation; nodes own 0..=2 output buffers (zero-buffer nodes must still be processed); sources()/sinks() == live nodes without incoming / outgoing edges.",
+    "Every directed multigraph on up to 3 nodes (multiplicity 0..2 on each ordered pair incl. self-loops) x every output node, every digraph with self-loops on 4 nodes x every output node (thorough: every loop-free digraph on 5 nodes), single removals with slot reuse on stable graphs, and random graphs of up to 14 nodes with parallel edges, self-loops, removals, late nodes and edges, consecutive process calls with different output nodes on one reused processor of random capacity, Graph and StableGraph: processed set == reverse reachability, each node once; each invocation's input pointers == one per incoming edge from a different node, never the node's own buffers, and presenting all of the neighbour's buffers whatever the consumer's own channel count; mixers with 17..=80 incoming edges on a processor created with capacity 0..=5; optionally a node that panics (caught) during an earlier call on the same processor; loop-free graphs of the library's own Sum / SumBuffers / Pass nodes fed by closure nodes and finite signal nodes, evaluated by an independent reference over 1..=4 calls; for acyclic upstream subgraphs inputs first and buffers == functional evaluation; nodes own 0..=2 output buffers (zero-buffer nodes must still be processed); sources()/sinks() == live nodes without incoming / outgoing edges.",
     "Trusted: petgraph 0.5.1 as resolved by the repository's lock file; the harness edge list and reachability model. Input order is unspecified and not asserted.",
     "DESIGN.md §4 C09")
 
 add("C16", "vp_graph",
     "proptest + catalogue (kind x wrapper x channel layout) against per-node reference functions inside a real graph",
-    "Sum, SumBuffers, Pass, Delay, signal node and nested GraphNode, each through bare / &mut / Box / BoxedNode / BoxedNodeSend / Box<dyn FnMut> / Box<dyn Fn> / fn-pointer forms, with 0..6 inputs of 0..4 buffers, 0..4 output buffers (mismatched on purpose), 1..6 consecutive process calls with fresh contents from constant-writer source nodes (levels scaled by 2^e, e down to -143: quiet and subnormal signals; dense contents or impulses 193 samples apart with silent blocks between them; the node under test may carry an edge onto itself), Delay rings of 1..200 samples per channel (shorter than, equal to and longer than a buffer), signal frames of 1..4 channels: Sum per channel over the inputs that have it, SumBuffers over all buffers, Pass copies and leaves surplus outputs (sentinel pattern) untouched, Delay == per-channel FIFO carried across calls, signal node de-interleaves one buffer length of frames per call, GraphNode == processing the same inner graph directly (inner graphs whose output node is a Sum, a Pass with a surplus buffer, or sits on a feedback loop through a delay), signal nodes over endless and over finite signals that end during the run, every wrapper bit-identical to the bare node.",
+    "Sum, SumBuffers, Pass, Delay, signal node and nested GraphNode, each through bare / &mut / Box / BoxedNode / BoxedNodeSend / Box<dyn FnMut> / Box<dyn Fn> / fn-pointer forms, with 0..6 inputs of 0..4 buffers, 0..4 output buffers (mismatched on purpose), 1..6 consecutive process calls with fresh contents from constant-writer source nodes (levels scaled by 2^e, e down to -143: quiet and subnormal signals; dense contents or impulses 193 samples apart with silent blocks between them; the node under test may carry an edge onto itself), Delay rings of 1..200 samples per channel (shorter than, equal to and longer than a buffer), signal frames of 1..4 channels: Sum per channel over the inputs that have it, SumBuffers over all buffers, Pass copies and leaves surplus outputs (sentinel pattern) untouched (with several inputs: the copy of exactly one of them), Delay == per-channel FIFO carried across calls, signal node de-interleaves one buffer length of frames per call, GraphNode == processing the same inner graph directly (inner graphs whose output node is a Sum, a Pass with a surplus buffer, or sits on a feedback loop through a delay), signal nodes over endless and over finite signals that end during the run, every wrapper bit-identical to the bare node.",
     "Trusted: the reference functions; exact comparison on grid contents, n eps sum|x| otherwise. dasp_graph is built against the crates.io 0.11.0 dasp_* crates exactly as the repository resolves them.",
     "DESIGN.md §4 C16")
 
